@@ -223,3 +223,42 @@ class LineRunner:
         return {"evaluations": self.n, "distinct_nontrivial": len(self.distinct), "samples": self.samples,
                 "input_distribution": dict(sorted(self.dist.items())), "model_disagreements": len(self.mismatch),
                 "impl_property_failures": len(self.impl_fail), "model_self_checks_vs_definition": self.spec_checked}
+
+
+def full_alias_cases(ctx, specs):
+    """Complete adversarial assignments for the `x + r` alias. specs: list of (honest_src, k, tags) where register `$k` of
+    the program is the input witness; the implementation's own witness generator is run with the host view of that
+    witness set to the integer value + r (feature-gated hook `set_host_view`), the resulting witness table is dumped
+    and turned into `setw` operations on the honest program: every dependent witness (range-check accumulators, high
+    part, guard helper wires) is consistent with the alias, so only the canonical `< r` guard can reject it.
+    Returns ordinary cases (expect unsat) for the ProgRunner."""
+    from plib import R, hx
+    lines = []
+    for (src, k, val, tags) in specs:
+        ops = src.split(";")
+        # insert the host view right after the op that defines register k (registers are defined by `w` ops in order)
+        seen, out = -1, []
+        for op in ops:
+            out.append(op)
+            if op.strip().startswith("w "):
+                seen += 1
+                if seen == k:
+                    out.append("hostview $%d %x" % (k, val + R))
+        lines.append("dump " + ";".join(out))
+        lines.append("dump " + src)
+    outs = ctx.impl(lines)
+    cases = []
+    for i, (src, k, val, tags) in enumerate(specs):
+        a, h = outs[2 * i], outs[2 * i + 1]
+        if not (a.startswith("G ") and h.startswith("G ")):
+            continue
+        wa = a.split(" W ")[1].split(" P ")[0].split(",")
+        wh = h.split(" W ")[1].split(" P ")[0].split(",")
+        if len(wa) != len(wh):
+            continue
+        sets = ["setw #%d %s" % (j, wa[j]) for j in range(len(wa)) if wa[j] != wh[j]]
+        if not sets:
+            continue
+        cases.append({"src": src + ";" + ";".join(sets), "cmd": "prog", "expect": "unsat", "rv": None,
+                      "tags": list(tags) + ["full-alias-assignment"]})
+    return cases
